@@ -481,11 +481,13 @@ def execute(case):
 
                 bi = op.get("b", 1) % len(actors)
                 pa, pb = first_pattern(a["obj"]), first_pattern(actors[bi]["obj"])
-                if pa is None or pb is None or pa is pb or bi == ai:
+                if pa is None or pb is None or pa is pb or bi == ai or pa.lines * pa.tracks < 2:
                     log.append((i, "borrow_fail", "skip"))
                     continue
                 a["mut"] += 1
-                at = op.get("at", 1) % max(1, pa.lines * pa.tracks - 1) + 1
+                # gives up after 1 .. cells-1 notes, never after all of them: a COMPLETED edit that places
+                # B's Note object in A's grid as well is the caller's mistake, not an aftermath
+                at = 1 + op.get("at", 0) % (pa.lines * pa.tracks - 1)
 
                 class _GiveUp(Exception):
                     pass
@@ -501,7 +503,7 @@ def execute(case):
 
                 try:
                     pa.set_via_gen(gen)
-                    outcome = "completed"
+                    raise AssertionError("harness: the borrowing generator must not complete")
                 except _GiveUp:
                     outcome = "gave_up"
                 fired["failed_bulk_edit_with_borrowed_note"] = fired.get("failed_bulk_edit_with_borrowed_note", 0) + 1
